@@ -5,6 +5,7 @@ import RbV.Model.FMDSym
 import RbV.Lemmas.SmemsFmd
 import RbV.Lemmas.FmdBridge
 import RbV.Lemmas.FmdInitExt
+import RbV.Thm.GenSrcFmdIndex
 /-!
 # C06 — FMD-index: SMEMs on both strands, `all_smems`, bi-interval extension
 
@@ -523,5 +524,110 @@ example (b len : Nat) : (b, len) ∈ SmemModel.smemsStr T0 [65, 84, 84] 2 1 ↔
     (Smem T0 [65, 84, 84] b len ∧ b ≤ 2 ∧ 2 < b + len ∧ 1 ≤ len) :=
   smems_model_correct T0 [65, 84, 84] 2 1 (by decide) (by decide) b len
 end sweep_examples
+
+/-! ### The translated source text (`RbV/Gen/SrcFmd*.lean`, regenerated from `fmindex.rs` on every run; docs/notes/GEN.md)
+
+`BiInterval` is the tuple `(lower, lower_rev, size, match_size)` (`toT`); `less` / `occ` are function parameters.  The
+extension functions are tied to the mirror model on **non-empty** intervals (on empty ones the property leaves the
+value free; `*_dead`: no panic, empty again), `smems` / `all_smems` to the sweep model over any operations the
+translated extension functions compute on a closed set of safe intervals, **up to the order of the matches**. -/
+section source
+open RbV.Gen RbV.Thm.GenSrcFmdExt RbV.Thm.GenSrcFmdSmems RbV.Thm.GenSrcFmdAllSmems RbV.Thm.GenSrcFmdIndex RbV.FMDModel
+
+/-- translated `init_interval_with` = mirror model (`a < 255`: `a + 1` is computed in `u8`) -/
+theorem fmd_init_interval_source_eq_model (lessF : Nat → Nat) (a : Nat) (ha : a < 255) (hm : lessF a ≤ lessF (a + 1))
+    (bwt : List Nat) :
+    SrcFmdExt.init_interval_with lessF dnaCompl a = Rs.Res.ok (toT (initIntervalWith lessF a)) ∧
+      SrcFmdExt.init_interval bwt = Rs.Res.ok (toT (initInterval bwt.length)) :=
+  ⟨init_interval_with_eq_model lessF a ha hm, init_interval_eq_model bwt⟩
+
+/-- translated `backward_ext` = mirror model on every non-empty interval on which the checked arithmetic stays below
+`2^64` (`N` bounds `occ`) -/
+theorem fmd_backward_ext_source_eq_model (lessF : Nat → Nat) (occF : Nat → Nat → Nat) (iv : Bi) (a N : Nat)
+    (hpos : 0 < iv.size) (h64 : iv.lower + iv.size < 2 ^ 64) (hm : OccMono occF iv order)
+    (hN : ∀ r b, occF r b ≤ N) (hsum : iv.lowerRev + (order.map (sOf occF iv)).sum < 2 ^ 64)
+    (hk : lessF a + N < 2 ^ 64) (hms : iv.matchSize + 1 < 2 ^ 64) :
+    SrcFmdExt.backward_ext lessF occF (toT iv) a = Rs.Res.ok (toT (backwardExt lessF occF iv a)) :=
+  backward_ext_eq_model lessF occF iv a N hpos h64 hm hN hsum hk hms
+
+/-- translated `forward_ext` = mirror model (same hypotheses for the swapped interval and the complement symbol) -/
+theorem fmd_forward_ext_source_eq_model (lessF : Nat → Nat) (occF : Nat → Nat → Nat) (iv : Bi) (a N : Nat)
+    (hpos : 0 < iv.size) (h64 : iv.lowerRev + iv.size < 2 ^ 64) (hm : OccMono occF (swapped iv) order)
+    (hN : ∀ r b, occF r b ≤ N) (hsum : iv.lower + (order.map (sOf occF (swapped iv))).sum < 2 ^ 64)
+    (hk : lessF (dnaCompl a) + N < 2 ^ 64) (hms : iv.matchSize + 1 < 2 ^ 64) :
+    SrcFmdExt.forward_ext lessF occF dnaCompl (toT iv) a = Rs.Res.ok (toT (forwardExt lessF occF iv a)) :=
+  forward_ext_eq_model lessF occF iv a N hpos h64 hm hN hsum hk hms
+
+/-- extension of an **empty** interval with non-zero bounds: no panic, empty again (whatever its other fields are) -/
+theorem fmd_ext_of_empty_source (lessF : Nat → Nat) (occF : Nat → Nat → Nat) (iv : Bi) (a N B : Nat)
+    (h0 : iv.size = 0) (hl : 1 ≤ iv.lower) (hlB : iv.lower ≤ B) (hr : 1 ≤ iv.lowerRev) (hrB : iv.lowerRev ≤ B)
+    (hB : B < 2 ^ 64) (hN : ∀ r b, occF r b ≤ N) (hk : lessF a + N ≤ B) (hk' : lessF (dnaCompl a) + N ≤ B)
+    (hms : iv.matchSize + 1 < 2 ^ 64) :
+    DeadOk iv B (1 ≤ lessF a) True (SrcFmdExt.backward_ext lessF occF (toT iv) a) ∧
+      DeadOk iv B True (1 ≤ lessF (dnaCompl a)) (SrcFmdExt.forward_ext lessF occF dnaCompl (toT iv) a) :=
+  ⟨backward_ext_dead lessF occF iv a N B h0 hl hlB hr hrB hB hN hk hms,
+   forward_ext_dead lessF occF iv a N B h0 hl hlB hr hrB hB hN hk' hms⟩
+
+/-- translated `smems` = sweep model, for **every** family of operations the translated extension functions compute on
+a closed set of safe intervals (`SafeOps`), up to the order of the matches -/
+theorem fmd_smems_source_eq_model (lessF : Nat → Nat) (occF : Nat → Nat → Nat) (ops : SmemModel.Ops Bi)
+    (S : Nat → Bi → Prop) (pat : List Nat) (hS : SafeOps lessF occF ops S pat) (i l : Nat) (hi : i < pat.length)
+    (hL : pat.length + 1 < 2 ^ 63) :
+    ∃ res, SrcFmdSmems.smems lessF occF dnaCompl pat i l = Rs.Res.ok res ∧
+      res.Perm ((SmemModel.smems ops pat i l).map hitT) :=
+  smems_eq_model hS i l hi hL
+
+/-- translated `all_smems` = sweep model, given that the translated `smems` returns the model's matches in some order -/
+theorem fmd_all_smems_source_eq_model (lessF : Nat → Nat) (occF : Nat → Nat → Nat) (ops : SmemModel.Ops Bi)
+    (pat : List Nat) (l : Nat) (hsm : SmemsOk lessF occF ops pat l) (hL : pat.length + 1 < 2 ^ 63) :
+    ∃ res, SrcFmdAllSmems.all_smems lessF occF dnaCompl pat l = Rs.Res.ok res ∧
+      res.Perm ((SmemModel.allSmems ops pat l).map hitT) :=
+  all_smems_eq_model lessF occF ops pat l hsm hL
+
+/-- the operations performed by the translated code are safe on every FM-index (`less`, `occ` bounded by `n`, `occ`
+monotone in the row) for patterns of symbols with `less ≥ 1` -/
+theorem fmd_source_ops_safe (lessF : Nat → Nat) (occF : Nat → Nat → Nat) (n : Nat) (pat : List Nat)
+    (hI : IdxFacts lessF occF n) (hsym : ∀ a ∈ pat, SymOk lessF a) (hsz : M n * (pat.length + 2) < 2 ^ 64) :
+    SafeOps lessF occF (srcOps lessF occF) (Safe n) pat :=
+  safeOps hI hsym hsz
+
+/-- **the translated `smems`, run on `less` / `occ` of an FMD index whose suffix array C03's checker accepts, does not
+panic and returns exactly the supermaximal matches covering `i` of length `≥ l`, with both intervals right.**
+Size hypothesis: `(13·n + 2)·(|pattern| + 2) < 2^64` (crude head-room of the `usize` arithmetic). -/
+theorem fmd_smems_source_correct (seqs : List (List Nat)) (sa pat : List Nat)
+    (hne : seqs ≠ []) (hseqs : ∀ s ∈ seqs, ∀ c ∈ s, isDna c = true)
+    (hc : checkSA (fmdText seqs) sa = true) (hpat : ∀ c ∈ pat, isDna c = true)
+    (hsz : M sa.length * (pat.length + 2) < 2 ^ 64) (i l : Nat) (hi : i < pat.length) (hl : 1 ≤ l) :
+    ∃ res, SrcFmdSmems.smems (LF.lessRef (LF.bwtOf (fmdText seqs) sa)) (LF.occRef (LF.bwtOf (fmdText seqs) sa))
+        dnaCompl pat i l = Rs.Res.ok res ∧ SmemsProp (fmdText seqs) sa pat i l (res.map obsT) :=
+  smems_source_correct seqs sa pat hne hseqs (sortedAllB_of_checkSA seqs sa hne hseqs hc) hpat hsz i l hi hl
+
+/-- **… and the translated `all_smems` exactly the supermaximal matches of length `≥ l`** -/
+theorem fmd_all_smems_source_correct (seqs : List (List Nat)) (sa pat : List Nat)
+    (hne : seqs ≠ []) (hseqs : ∀ s ∈ seqs, ∀ c ∈ s, isDna c = true)
+    (hc : checkSA (fmdText seqs) sa = true) (hpat : ∀ c ∈ pat, isDna c = true)
+    (hsz : M sa.length * (pat.length + 2) < 2 ^ 64) (l : Nat) (hl : 1 ≤ l) :
+    ∃ res, SrcFmdAllSmems.all_smems (LF.lessRef (LF.bwtOf (fmdText seqs) sa)) (LF.occRef (LF.bwtOf (fmdText seqs) sa))
+        dnaCompl pat l = Rs.Res.ok res ∧ AllSmemsProp (fmdText seqs) sa pat l (res.map obsT) := by
+  obtain ⟨res, h1, _, h3⟩ := all_smems_source_correct seqs sa pat hne hseqs
+    (sortedAllB_of_checkSA seqs sa hne hseqs hc) hpat hsz l hl
+  exact ⟨res, h1, h3⟩
+
+-- non-vacuity: the doc-test index `ATTC$GAAT$` (the translated code evaluated; hypotheses by `decide`)
+private def T1 : List Nat := fmdText [[65, 84, 84, 67]]
+private def sa1 : List Nat := [9, 4, 6, 7, 0, 3, 5, 8, 2, 1]
+example : checkSA T1 sa1 = true := by decide
+example : (SrcFmdSmems.smems (LF.lessRef (LF.bwtOf T1 sa1)) (LF.occRef (LF.bwtOf T1 sa1)) dnaCompl [65, 84, 84] 2 1)
+    = Rs.Res.ok [((4, 2, 1, 3), 0, 3)] := by decide
+example : (SrcFmdAllSmems.all_smems (LF.lessRef (LF.bwtOf T1 sa1)) (LF.occRef (LF.bwtOf T1 sa1)) dnaCompl [65, 84, 71] 1)
+    = Rs.Res.ok [((3, 3, 2, 2), 0, 2), ((6, 5, 1, 1), 2, 1)] := by decide
+-- a pattern symbol that does not occur (N): the empty interval is extended, nothing is reported, no panic
+example : (SrcFmdSmems.smems (LF.lessRef (LF.bwtOf T1 sa1)) (LF.occRef (LF.bwtOf T1 sa1)) dnaCompl [65, 78, 84] 1 1)
+    = Rs.Res.ok [] := by decide
+example : ∃ res, SrcFmdSmems.smems (LF.lessRef (LF.bwtOf T1 sa1)) (LF.occRef (LF.bwtOf T1 sa1)) dnaCompl [65, 84, 84] 2 1
+    = Rs.Res.ok res ∧ SmemsProp T1 sa1 [65, 84, 84] 2 1 (res.map obsT) :=
+  fmd_smems_source_correct [[65, 84, 84, 67]] sa1 [65, 84, 84] (by decide) (by decide) (by decide) (by decide)
+    (by decide) 2 1 (by decide) (by decide)
+end source
 
 end RbV.Thm.C06
